@@ -68,6 +68,12 @@ def cases(tier, seed):
             for k in ks:
                 for p in (0, 1):
                     out.append({"kind": "single", "D": D, "shape": list(shape), "k": k, "p": p})
+    # realistic-size images (a fast path gated on the number of pixels would never be entered by the small shapes above)
+    for D, shape in ((2, (64, 64)), (2, (80, 60)), (3, (16, 16, 16)), (3, (20, 10, 8)), (2, (128, 3)), (1, (5000,))):
+        for k, p in (((0, 0), (1, 1)) if D > 1 else ((0, 1),)):
+            out.append({"kind": "single", "D": D, "shape": list(shape), "k": k, "p": p, "large": True})
+    out.append({"kind": "multi", "D": 2, "shape": [64, 64], "lead": [2], "sig": [[0, 1], [1, 0]], "torus": [True, False]})
+    out.append({"kind": "multi", "D": 3, "shape": [16, 16, 16], "lead": [], "sig": [[1, 1], [0, 0]], "torus": [True, False, False]})
     # multi-image entry
     rng = np.random.default_rng([seed, 2, 999])
     n_mi = 40 if tier == "quick" else 600
@@ -171,7 +177,10 @@ def run_single(case, ctx):
             viols.append(viol("identity-law", f"identity does not act trivially: {key}"))
         # composition / inverse on the recorded results, using the real function for the second step
         index = {rgroup.key(g): i for i, g in enumerate(G)}
-        for a, b in pairs_for(ctx["tier"], D, G, rng):
+        pair_list = pairs_for(ctx["tier"], D, G, rng)
+        if case.get("large"):
+            pair_list = [pair_list[int(j)] for j in rng.choice(len(pair_list), size=min(24, len(pair_list)), replace=False)]
+        for a, b in pair_list:
             g, h = G[a], G[b]
             try:
                 gh = np.asarray(geom.times_group_element(D, jnp.asarray(outs[b]), p, g))
